@@ -45,21 +45,32 @@ func C16(c *core.Ctx) {
 
 // constantsCheck regenerates internal/p4constants from the shipped P4Info.
 func constantsCheck(c *core.Ctx) {
-	runs := 4
+	// (the generator is built once and run many times: an order that depends on Go's map iteration shows in a fraction of
+	// the runs only - with three enumerations in the shipped P4Info, in about one run out of four)
+	runs := 48
 	if c.Thorough() {
-		runs = 12
+		runs = 300
 	}
 
 	dir := filepath.Join(c.Scratch, "constants")
 	_ = os.MkdirAll(dir, 0o755)
 
+	gen := filepath.Join(dir, "p4info_code_gen")
+	bld := exec.Command("go", "build", "-o", gen, "./cmd/p4info_code_gen")
+	bld.Dir = "/repo"
+	bld.Env = append(os.Environ(), "GOFLAGS=-mod=mod", "GOPROXY=off")
+
+	if outb, err := bld.CombinedOutput(); err != nil {
+		c.Inconclusive("constants generator cannot be built: %v: %s", err, tail(string(outb), 400))
+		return
+	}
+
 	var first []byte
 
 	for i := 0; i < runs; i++ {
 		out := filepath.Join(dir, fmt.Sprintf("gen%d.go", i))
-		cmd := exec.Command("go", "run", "./cmd/p4info_code_gen", "-p4info", "conf/p4/bin/p4info.txt", "-output", out)
+		cmd := exec.Command(gen, "-p4info", "conf/p4/bin/p4info.txt", "-output", out)
 		cmd.Dir = "/repo"
-		cmd.Env = append(os.Environ(), "GOFLAGS=-mod=mod", "GOPROXY=off")
 
 		done := make(chan error, 1)
 
